@@ -197,7 +197,9 @@ func checkC25(r *core.Run, p *core.Program) {
 	r.Rule("C25.nan-kind", "float array elements reach the text writer as a float64 built from the element's bits by a bit-exact constructor (common.Float64FromFloat32Bits / Float64FromFloat16Bits / math.Float64frombits); no writer on the path converts a float32 to float64 with a Go conversion before classifying the NaN kind (the hardware conversion turns a signalling NaN into a quiet one).")
 	r.Rule("C25.hex-noprefix", "the no-prefix hexadecimal float writer shortens its output only by a suffix it has tested for exactly (a zero exponent, p+00) and by exactly that suffix's length.")
 	r.Rule("C25.chain", "for every typed-array header token: lexer mode, parser alternative, listener method, numeric base handed to strconv and element bit size agree (so what C25.render establishes for a mode is what the decoder does).")
+	r.Rule("C25.hex-exponent", "where the text parser decides, for base 16, whether a float element already carries an exponent, it searches for 'p' / 'P' only: a character that is itself a hexadecimal digit (e, E, …) is never taken as the exponent marker of a hexadecimal float.")
 	r.NotDecide("exactness of strconv/fmt float text for arbitrary values; NaN payloads")
+	checkC25HexExponent(r, p)
 
 	pkg := p.Pkg("cte")
 	info := pkg.TypesInfo
@@ -797,4 +799,69 @@ func c25HexNoPrefix(r *core.Run, p *core.Program) {
 	if n == 0 {
 		r.Pass("C25.hex-noprefix", "(*cte.Writer).WriteFloatHexNoPrefix|output shortened only by an exactly tested zero exponent", f.Decl.Pos(), "no shortening")
 	}
+}
+
+// checkC25HexExponent: conditions of package cte that combine `base == 16` with a search of the text.
+func checkC25HexExponent(r *core.Run, p *core.Program) {
+	pkg := p.Pkg("cte")
+	info := pkg.TypesInfo
+	isHexDigit := func(c rune) bool {
+		return (c >= '0' && c <= '9') || (c >= 'a' && c <= 'f') || (c >= 'A' && c <= 'F')
+	}
+	n := 0
+	for _, f := range funcsOf(pkg) {
+		ast.Inspect(f.Decl.Body, func(nd ast.Node) bool {
+			ifs, ok := nd.(*ast.IfStmt)
+			if !ok {
+				return true
+			}
+			base16 := false
+			ast.Inspect(ifs.Cond, func(k ast.Node) bool {
+				if be, ok := k.(*ast.BinaryExpr); ok && be.Op == token.EQL {
+					if c, isC := constInt(info, be.Y); isC && c == 16 {
+						if b, isB := info.TypeOf(be.X).Underlying().(*types.Basic); isB && b.Info()&types.IsInteger != 0 {
+							base16 = true
+						}
+					}
+				}
+				return true
+			})
+			if !base16 {
+				return true
+			}
+			inspectCalls(info, ifs.Cond, func(call *ast.CallExpr, cal *types.Func) {
+				if cal == nil || cal.Pkg() == nil || cal.Pkg().Path() != "strings" || len(call.Args) != 2 {
+					return
+				}
+				switch cal.Name() {
+				case "Contains", "ContainsRune", "ContainsAny", "Index", "IndexAny", "IndexByte", "IndexRune", "LastIndex", "LastIndexAny", "LastIndexByte":
+				default:
+					return
+				}
+				tv, ok := info.Types[call.Args[1]]
+				if !ok || tv.Value == nil {
+					return
+				}
+				var chars []rune
+				switch tv.Value.Kind() {
+				case constant.String:
+					chars = []rune(constant.StringVal(tv.Value))
+				case constant.Int:
+					v, _ := constant.Int64Val(tv.Value)
+					chars = []rune{rune(v)}
+				}
+				n++
+				bad := ""
+				for _, c := range chars {
+					if isHexDigit(c) {
+						bad += string(c)
+					}
+				}
+				r.Check("C25.hex-exponent", fmt.Sprintf("%s|%s", f.Name(), cal.Name()), call.Pos(), bad == "",
+					"in the base-16 branch the text is searched for "+strconv.Quote(bad)+", which are hexadecimal digits: a hexadecimal float element containing them is taken to have an exponent already and is then rejected or misread")
+			})
+			return true
+		})
+	}
+	r.Floor("C25.hex-exponent", "base-16 exponent searches", n, 2)
 }
